@@ -46,11 +46,13 @@ func delays(r *rng.R, n int, busy bool) []int64 {
 
 func genC18(r *rng.R, tier string, steer bool, idx int) *trace.Trace {
 	t := &trace.Trace{}
-	switch r.Weighted([]int{4, 4, 2}) {
+	switch r.Weighted([]int{4, 4, 2, 1}) {
 	case 0:
 		genIncr(r, t, steer)
 	case 1:
 		genSmart(r, t, steer)
+	case 3:
+		genInline(r, t)
 	default:
 		genHandles(r, t)
 	}
@@ -909,6 +911,9 @@ func readRaces(from int64) []raceReport {
 // Exec
 
 func execC18(t *trace.Trace, dir string) *harness.RunResult {
+	if t.Config.Mode == "inline" {
+		return execInline(t)
+	}
 	res := &harness.RunResult{Probes: map[string]int{}, Fired: map[string]int{}}
 	viol := func(oracle, class, detail string) {
 		res.Violations = append(res.Violations, trace.Violation{Property: "C18", Oracle: oracle, Class: class, Detail: detail})
